@@ -142,6 +142,10 @@ def run_tlc(module, cfg, workdir, workers=None, simulate=None, depth=None, seed=
     if dfs_queue:
         jto += " -Dtlc2.tool.queue.IStateQueue=StateDeque"
     jto += " -Xss512m"
+    # TLC / SANY unpack their standard modules into java.io.tmpdir and leave them behind: keep that inside the scratch dir
+    jtmp = os.path.join(workdir, "jtmp")
+    os.makedirs(jtmp, exist_ok=True)
+    jto += " -Djava.io.tmpdir=" + jtmp
     if heap:
         jto += " -Xmx" + heap
     env["JAVA_TOOL_OPTIONS"] = jto.strip()
@@ -174,8 +178,11 @@ def sany(modules):
         for f in os.listdir(SPEC):
             if f.endswith(".tla"):
                 shutil.copyfile(os.path.join(SPEC, f), os.path.join(d, f))
+        env = dict(os.environ)
+        os.makedirs(os.path.join(d, "jtmp"), exist_ok=True)
+        env["JAVA_TOOL_OPTIONS"] = (env.get("JAVA_TOOL_OPTIONS", "") + " -Djava.io.tmpdir=" + os.path.join(d, "jtmp")).strip()
         for m in modules:
-            p = subprocess.run(["tla-sany", m + ".tla"], cwd=d, capture_output=True, text=True, timeout=300)
+            p = subprocess.run(["tla-sany", m + ".tla"], cwd=d, capture_output=True, text=True, timeout=300, env=env)
             if p.returncode != 0 or "error" in (p.stdout + p.stderr).lower().replace("errors: 0", ""):
                 if "Semantic errors" in p.stdout or "Parse Error" in p.stdout or p.returncode != 0:
                     raise ToolError("SANY failed on %s:\n%s" % (m, (p.stdout + p.stderr)[-3000:]))
